@@ -20,7 +20,8 @@
 union nv_bits { double d; uint64_t u; };
 #define NV_IDENT(a, b) (((union nv_bits){ .d = (a) }).u == ((union nv_bits){ .d = (b) }).u)
 struct nv_grow { int64_t tensor, row; const void* from; };    /* tensor.array(k): which tensor, which row, where k was read from */
-struct nv_acc { int64_t ver; int64_t cnt; };                      /* accumulator_t: #contributions since clear(), #contributions of the followed entry */
+struct nv_acc { int64_t ver; int64_t cnt; double val; };          /* accumulator_t: #contributions since clear(), #contributions of the followed entry
+                                                                   * and the feature value it was entered with (hinge: update(value, residuals)) */
 struct nv_ival { double first; int64_t second; };                 /* std::pair<scalar_t, tensor_size_t> */
 struct nv_t1dv { double* p; int64_t n; };                         /* scalar_cmap_t */
 struct nv_tuple2 { double _0, _1; };                              /* std::tuple<double, double> (missing_rss, missing_cnt) */
@@ -52,7 +53,7 @@ static void nv_acc_update(struct nv_acc* a, struct nv_grow g)
   if (a->ver < NV_MAXN) a->ver = a->ver + 1; else nv_fitbad = 1;
   if (g.from == nv_track) a->cnt = a->cnt + 1;
 }
-static void nv_acc_update_x(struct nv_acc* a, double value, struct nv_grow g) { nv_acc_update(a, g); }
+static void nv_acc_update_x(struct nv_acc* a, double value, struct nv_grow g) { nv_acc_update(a, g); if (g.from == nv_track) a->val = value; }
 static void nv_acc_clear(struct nv_acc* a) { a->ver = 0; a->cnt = 0; }
 /* std::pair relational operators: lexicographic (C++ [pairs.spec]) */
 static _Bool nv_pair_lt(const struct nv_ival* a, const struct nv_ival* b) { return a->first < b->first || (!(b->first < a->first) && a->second < b->second); }
@@ -99,16 +100,16 @@ __CPROVER_ensures(!NV_GIVEN_G ==> (self->m_ivalues.pushed == 0 && self->m_acc_su
 /* .4 the total holds one contribution per entry */ \
 __CPROVER_ensures(self->m_ivalues.n <= NV_MAXN && self->m_acc_sum.ver == (int64_t)self->m_ivalues.n)
 #define NV_CONTRACT_stump_cache_clear NV_CONTRACT_FIT_CLEAR
-#define NV_CONTRACT_hinge_cache_clear NV_CONTRACT_FIT_CLEAR
+/* hinge: the total is entered with the feature value of the same position */
+#define NV_CONTRACT_hinge_cache_clear NV_CONTRACT_FIT_CLEAR __CPROVER_ensures(NV_GIVEN_G ==> NV_IDENT(self->m_acc_sum.val, values->p[nv_g]))
 #define NV_LOOP_FIT_CLEAR \
 __CPROVER_assigns(i, missing_rss, missing_cnt, self->m_ivalues, self->m_acc_sum, nv_fitbad, nv_miss_rss) \
 __CPROVER_loop_invariant(0 <= i && i <= values->n && !nv_fitbad && !self->m_ivalues.sorted && self->m_ivalues.n <= (uint64_t)i && self->m_acc_sum.ver == (int64_t)self->m_ivalues.n) \
 __CPROVER_loop_invariant(self->m_ivalues.pushed == ((i > nv_g && NV_GIVEN_G) ? 1 : 0) && self->m_acc_sum.cnt == self->m_ivalues.pushed \
   && nv_miss_rss == ((i > nv_g && !NV_GIVEN_G) ? 1 : 0)) \
-__CPROVER_loop_invariant(self->m_ivalues.pushed == 1 ==> (NV_IDENT(self->m_ivalues.pushed_value, values->p[nv_g]) && self->m_ivalues.pushed_sample == samples->p[nv_g])) \
-__CPROVER_decreases(values->n - i)
-#define NV_LOOP_stump_cache_clear_1 NV_LOOP_FIT_CLEAR
-#define NV_LOOP_hinge_cache_clear_1 NV_LOOP_FIT_CLEAR
+__CPROVER_loop_invariant(self->m_ivalues.pushed == 1 ==> (NV_IDENT(self->m_ivalues.pushed_value, values->p[nv_g]) && self->m_ivalues.pushed_sample == samples->p[nv_g]))
+#define NV_LOOP_stump_cache_clear_1 NV_LOOP_FIT_CLEAR __CPROVER_decreases(values->n - i)
+#define NV_LOOP_hinge_cache_clear_1 NV_LOOP_FIT_CLEAR __CPROVER_loop_invariant(self->m_acc_sum.cnt == 1 ==> NV_IDENT(self->m_acc_sum.val, values->p[nv_g])) __CPROVER_decreases(values->n - i)
 #else
 /* ================================================================================================ the sweep */
 uint64_t nv_p;                 /* the followed sorted position */
@@ -173,6 +174,21 @@ static double nv_candidate(const struct nv_fitcache* c, int32_t side, double thr
 }
 /* coefficients computed from the accumulators (output_neg / output_pos / beta_neg / beta_pos): which side, at which moment */
 static struct nv_coef nv_coef_of(const struct nv_fitcache* c, int32_t kind) { struct nv_coef e; e.kind = kind; e.ver = c->m_acc_neg.ver; return e; }
+/* hinge: beta_neg(threshold) / beta_pos(threshold): as above, and the threshold used is the mid-point of the evaluated cut */
+static struct nv_coef nv_coef_of_t(const struct nv_fitcache* c, int32_t kind, double threshold)
+{
+  __CPROVER_assert(nv_evals > 0 && NV_IDENT(threshold, nv_eval_mid), "fit: the coefficients are computed for the mid-point threshold of the evaluated cut");
+  return nv_coef_of(c, kind);
+}
+/* hinge: factor * cache.m_tables.array(0), the intercept row: obligations = it is derived from row 0 as just stored, with
+ * the factor -threshold of the evaluated cut (so that tables[1] == -threshold * tables[0]: the prediction tables[0] * x +
+ * tables[1] vanishes at the threshold, the hypothesis of the MARS-hinge lemmas of the spec) */
+static struct nv_coef nv_coef_scaled(double factor, struct nv_grow row, const struct nv_fitcache* c)
+{
+  __CPROVER_assert(row.tensor == c->m_tables.id && row.row == 0 && nv_row0_sets > 0 && nv_row0_ver == nv_eval_ver, "fit: the intercept row is derived from the slope row stored for the same candidate");
+  __CPROVER_assert(NV_IDENT(factor, NV_FNEG(nv_eval_mid)), "fit: the intercept row is -threshold * slope row for the mid-point threshold of the evaluated cut");
+  struct nv_coef e; e.kind = NV_SIDE_DERIVED; e.ver = nv_row0_ver; return e;
+}
 /* cache.m_tables.array(r) = coefficients: THE EVENT "a candidate is stored" (recorded per row; the stored candidate is the
  * latest evaluation: obligation) */
 static void nv_row_store(struct nv_grow dst, struct nv_coef e, const struct nv_fitcache* c)
@@ -223,5 +239,22 @@ NV_SWEEP_INV(cache) \
 __CPROVER_loop_invariant(NV_STUMP_STORED(cache)) \
 __CPROVER_loop_invariant(nv_stores == 0 ==> (NV_IDENT(cache->m_score, __CPROVER_loop_entry(cache->m_score)) && NV_IDENT(cache->m_threshold, __CPROVER_loop_entry(cache->m_threshold)) \
    && cache->m_feature == __CPROVER_loop_entry(cache->m_feature))) \
+__CPROVER_decreases(sv - iv)
+/* ---- hinge: two directions per cut; the direction stored is the one whose score was stored */
+#define NVE_hinge_type_left 0      /* pinned by static_asserts in drivers/inst_wlearner.cpp */
+#define NVE_hinge_type_right 1
+#define NV_HINGE_STORED(c) (nv_stores > 0 ==> (nv_row1_kind == NV_SIDE_DERIVED && nv_row0_kind == nv_store_side \
+  && (((c)->m_hinge == NVE_hinge_type_left) ? (nv_store_side == NV_SIDE_NEG) : ((c)->m_hinge == NVE_hinge_type_right && nv_store_side == NV_SIDE_POS))))
+#define NV_CONTRACT_hinge_fit_sweep NV_SWEEP_REQ NV_SWEEP_ASSIGNS \
+__CPROVER_ensures(!nv_fitbad && NV_STORED_CONSISTENT(caches->cur) && NV_HINGE_STORED(caches->cur)) \
+__CPROVER_ensures(nv_stores == 0 ==> (NV_IDENT(caches->cur->m_score, __CPROVER_old(caches->cur->m_score)) && NV_IDENT(caches->cur->m_threshold, __CPROVER_old(caches->cur->m_threshold)) \
+   && caches->cur->m_feature == __CPROVER_old(caches->cur->m_feature) && caches->cur->m_hinge == __CPROVER_old(caches->cur->m_hinge))) \
+__CPROVER_ensures(nv_stores > 0 ==> caches->cur->m_ivalues.p[nv_store_ver - 1].first < caches->cur->m_ivalues.p[nv_store_ver].first)
+#define NV_LOOP_hinge_fit_sweep_1 \
+__CPROVER_assigns(iv, cache->m_acc_neg, cache->m_feature, cache->m_threshold, cache->m_score, cache->m_hinge, NV_SWEEP_GHOST) \
+NV_SWEEP_INV(cache) \
+__CPROVER_loop_invariant(NV_HINGE_STORED(cache) && ((nv_p < iv) ==> NV_IDENT(cache->m_acc_neg.val, cache->m_ivalues.p[nv_p].first))) \
+__CPROVER_loop_invariant(nv_stores == 0 ==> (NV_IDENT(cache->m_score, __CPROVER_loop_entry(cache->m_score)) && NV_IDENT(cache->m_threshold, __CPROVER_loop_entry(cache->m_threshold)) \
+   && cache->m_feature == __CPROVER_loop_entry(cache->m_feature) && cache->m_hinge == __CPROVER_loop_entry(cache->m_hinge))) \
 __CPROVER_decreases(sv - iv)
 #endif
